@@ -15,7 +15,7 @@ def nanv(v):
 
 def scenarios(chk):
     dump = chk.scratch.file("kalman.dump")
-    r = tlc.must_pass(tlc.run("KalmanMC", "KalmanMC.cfg", chk.scratch, dump=dump, timeout=1800), "KalmanMC")
+    r = tlc.must_pass(tlc.run("KalmanMC", "KalmanMC.thorough.cfg" if chk.tier == "thorough" else "KalmanMC.cfg", chk.scratch, dump=dump, timeout=3600), "KalmanMC")
     chk.add_tlc(r, "KalmanMC")
     out = []
     for st in tlaval.parse_dump(dump, want=lambda b: "done = TRUE" in b):
